@@ -9,6 +9,7 @@ import (
 	"sort"
 	"strconv"
 	"strings"
+	"sync"
 	"time"
 )
 
@@ -205,8 +206,25 @@ func main() {
 
 // runSelfTest applies each stored mutant in memory and checks the expected obligation fires.
 func runSelfTest(spec *PropSpec) []selfTestResult {
+	out := make([]selfTestResult, len(spec.Mutants))
+	sem := make(chan struct{}, 5)
+	var wg sync.WaitGroup
+	for i, m := range spec.Mutants {
+		wg.Add(1)
+		sem <- struct{}{}
+		go func(i int, m Mutant) {
+			defer wg.Done()
+			defer func() { <-sem }()
+			out[i] = runOneMutant(spec, m)
+		}(i, m)
+	}
+	wg.Wait()
+	return out
+}
+
+func runOneMutant(spec *PropSpec, m Mutant) selfTestResult {
 	var out []selfTestResult
-	for _, m := range spec.Mutants {
+	for _, m := range []Mutant{m} {
 		res := selfTestResult{Name: m.Name, File: m.File}
 		abs := filepath.Join(repoDir, m.File)
 		src, err := os.ReadFile(abs)
@@ -253,5 +271,5 @@ func runSelfTest(spec *PropSpec) []selfTestResult {
 		}
 		out = append(out, res)
 	}
-	return out
+	return out[0]
 }
